@@ -207,6 +207,42 @@ def run(tier, seed, replay=None):
             R.known_finding(f'{fd["id"]}: {fd["what"]}')
         else:
             R.violation(dict(detail, what=kind))
+    # ---- every statement kind of the grammars (sentences derived from the parsers' own productions, each production used): a copy
+    # (copy() and deepcopy) is equal to its original, prints the same SQL and has the same tree text; so does a second parse
+    import gramgen
+    gstats = {'sentences': 0, 'judged': 0, 'own_string_unavailable': 0}
+    greported = 0
+    for d in ('mindsdb', 'mysql'):
+        try:
+            gsent = gramgen.covering(rng, d, 1 if tier == 'quick' else 4, 40)
+        except Exception as e:
+            R.notes['gramgen_error'] = f'{type(e).__name__}: {e}'[:200]
+            gsent = []
+        for s in gsent:
+            gstats['sentences'] += 1
+            try:
+                t = parse_sql(s, d)
+            except Exception:
+                continue
+            try:
+                st, tt = str(t), t.to_tree()
+            except Exception:
+                gstats['own_string_unavailable'] += 1
+                continue
+            evaluations += 1
+            gstats['judged'] += 1
+            for how, mk in (('copy()', lambda: t.copy()), ('deepcopy', lambda: copy.deepcopy(t)), ('second parse', lambda: parse_sql(s, d))):
+                try:
+                    c = mk()
+                    diff = [w for w, bad_ in (('==', not (c == t)), ('str', str(c) != st), ('to_tree', c.to_tree() != tt)) if bad_]
+                except RecursionError:
+                    continue
+                except Exception as e:
+                    diff = [f'{type(e).__name__}: {e}'[:120]]
+                if diff and greported < 3:
+                    greported += 1
+                    fail('copy_not_equal', {'sql': s, 'dialect': d, 'how': how, 'differs_in': diff, 'original_prints': st[:300]})
+    stats['grammar_sentences'] = gstats
     for s, d in sqls:
         try:
             t = parse_sql(s, d)
